@@ -26,6 +26,8 @@ def overlap_cmds(ctx, tier):
         vlib.tlc("Overlap", env={"GEN_DIR": gdir}, timeout=600, quiet=True)
     cmds = []
     for fpath in sorted(glob.glob(os.path.join(gdir, "*.json"))):
+        if os.path.basename(fpath).startswith("state_"):
+            continue
         d = json.load(open(fpath))
         pls = sorted(d["placements"], key=lambda p: (p["doff"], p["key"], p["iv"], p["hdr"], p["tag"]))
         if tier == "quick":
@@ -36,6 +38,31 @@ def overlap_cmds(ctx, tier):
                 if p[k] != -100000:
                     c += " %s=%d" % (a, p[k])
             cmds.append(c + "\n")
+    return "".join(cmds).encode()
+
+
+def ovstate_cmds(ctx, tier):
+    """buffers overlapping the state object: the named positions of Overlap.tla's second rule group"""
+    gdir = ctx.path("suite_gen_overlap")
+    os.makedirs(gdir, exist_ok=True)
+    if not glob.glob(os.path.join(gdir, "state_*.json")):
+        vlib.tlc("Overlap", env={"GEN_DIR": gdir}, timeout=600, quiet=True)
+    cmds = []
+    for fpath in sorted(glob.glob(os.path.join(gdir, "state_*.json"))):
+        d = json.load(open(fpath))
+        for p in sorted(d["placements"], key=lambda p: (p["pos"], p["klen"], p["len"])):
+            cmds.append("ovstate f=%s kind=%s pos=%s klen=%d len=%d\n" % (d["f"], d["kind"], p["pos"], p["klen"], p["len"]))
+    return "".join(cmds).encode()
+
+
+def msgs_cmds(ctx, tier):
+    """message-level reuse of WBL / SDE / FMT states: all histories of <= 2 calls of spec/sm/MsgApi.tla"""
+    import msgs
+    hist, _, _ = msgs.gen_histories(ctx, 2)
+    cmds = []
+    for b, ss in sorted(hist.items()):
+        for i, s in enumerate(ss or []):
+            cmds.append("msgs b=%s klen=%d reloc=%d script=%s\n" % (b, (16, 24, 32)[i % 3], (i // 3) % 2, s))
     return "".join(cmds).encode()
 
 
@@ -63,7 +90,7 @@ def steps_cmds(ctx, tier):
 SUITES = [
     {"name": "belt", "sources": ["drv_belt.c", "drv_belt_steps.c"], "libs": ["-lm"], "trace": "Trace_Belt",
      "runs": [(["record", "{tier}"], None), (["fmt", "{tier}"], None), (["exec"], belt_exec_cmds),
-              (["steps"], steps_cmds), (["overlap"], overlap_cmds)]},
+              (["steps"], steps_cmds), (["overlap"], overlap_cmds), (["ovstate"], ovstate_cmds), (["msgs"], msgs_cmds)]},
 ]
 # suites contributed by the other checks: checks/suite_<name>.py with a SUITES list, enabled by a line
 # "<name>" in checks/suites_enabled.txt (a suite is enabled once its builder reports it deterministic,
